@@ -50,6 +50,7 @@ META = {
 MON_C = ["owner", "known", "dblfree", "freeheld", "conserve", "dtor", "cachecap"]
 MON_H = ["owner", "known", "count", "cachecap"]
 MON_P = ["owner", "recycle", "leak", "overflow", "nocreate", "seqbound"]
+MON_M = ["owner", "route", "recycle", "leak", "count", "twice", "nocreate"]
 MON_B = ["owner", "known", "dblfree", "freeheld", "conserve", "dtor", "counting"]
 WHAT = {
     "owner": "a page/object handed out by allocate/pop is simultaneously held by another caller, cached twice or already "
@@ -66,6 +67,9 @@ WHAT = {
     "leak": "an object is neither held, cached nor destroyed (or free_object_number() disagrees with the pool content)",
     "overflow": "more objects pooled than the queue can hold",
     "nocreate": "a strict pool handed out an object that was never injected",
+    "route": "push(h) into pool j did not put the object into pool j: a pool handed out / holds an object that was last "
+             "pushed into another pool (or was never given to it)",
+    "twice": "an object was destroyed twice",
     "seqbound": "single-threaded auto-create pool keeps more than capacity objects (overflow not destroyed)",
 }
 
@@ -152,6 +156,81 @@ def gen_strict(rng, small):
     return pcap, "|".join(",".join(t) for t in threads)
 
 
+def gen_multi_seq(rng):
+    """one thread, several pools: exact comparison with the model; no blocking pop on an empty strict pool, no handle
+    bound to no pool is left to die, strict pools stay within their capacity"""
+    k = 2 + rng.below(2)
+    modes = [rng.choice([1, 1, 2]) for _ in range(k)]
+    cap = 1 + rng.below(2)
+    q = [[] for _ in range(k)]
+    hands = []
+    fresh = 0
+    ops = []
+    for _ in range(8 + rng.below(10)):
+        r = rng.below(100)
+        j = rng.below(k)
+        if hands and r < 45:
+            o, b = hands[0]
+            c = rng.below(10)
+            if c < 5 or (c < 8 and b is None):
+                if modes[j] == 1 and len(q[j]) >= cap:
+                    continue
+                ops.append(("H%d" if c < 3 or b is None else "U%d") % j)
+                hands.pop(0)
+                if not (modes[j] == 2 and cap <= len(q[j])):
+                    q[j].append(o)
+            elif c < 8:
+                if modes[b] == 1 and len(q[b]) >= cap:
+                    continue
+                ops.append("D")
+                hands.pop(0)
+                if not (modes[b] == 2 and cap <= len(q[b])):
+                    q[b].append(o)
+            else:
+                ops.append("V")
+                hands.append(hands.pop(0))
+        elif r < 60:
+            ops.append("N")
+            hands.append((fresh, None))
+            fresh += 1
+        elif r < 80:
+            if q[j]:
+                ops.append("O%d" % j)
+                hands.append((q[j].pop(0), j))
+            elif modes[j] == 2:
+                ops.append("O%d" % j)
+                hands.append((fresh, j))
+                fresh += 1
+        else:
+            ops.append("T%d" % j)
+            if q[j]:
+                hands.append((q[j].pop(0), j))
+    if not ops:
+        ops = ["N"]
+    return cap, int("".join(str(m) for m in modes)), ",".join(ops)
+
+
+def gen_multi_conc(rng):
+    """2-3 threads, several pools: strict pools are only try_popped (no client deadlock), handles bound to another pool
+    or to no pool are pushed through both overloads"""
+    k = 2 + rng.below(2)
+    modes = [rng.choice([1, 2]) for _ in range(k)]
+    cap = 2 + rng.below(3)
+    threads = []
+    for t in range(2 + rng.below(2)):
+        ops = []
+        for _ in range(2 + rng.below(3)):
+            j, i = rng.below(k), rng.below(k)
+            src = rng.choice(["N", "T%d" % j, "T%d" % j, ("O%d" % j) if modes[j] == 2 else "N"])
+            ops.append(src)
+            c = rng.below(10)
+            ops.append(("H%d" % i) if c < 5 else ("U%d" % i) if c < 7 else "V")
+            if ops[-1] == "V":
+                ops.append("H%d" % i)
+        threads.append(ops)
+    return cap, int("".join(str(m) for m in modes)), "|".join(",".join(t) for t in threads)
+
+
 def gen_batch(rng):
     batch = rng.choice([1, 2, 3, 5, 8])
     nt = 1 + rng.below(3)
@@ -196,6 +275,16 @@ FIXED = [
     ("S", 2, "N,R,N,R|G,R|G,D", True),
     ("S", 1, "N,R,G,D|G,R,G,R|G,D", False),
     ("S", 2, "N,R|G,R,T,R|T,D,G,R", False),
+]
+FIXED_M = [
+    # (capacity, modes, program): handle / Deleter routing between pools (1 = strict, 2 = auto-create)
+    (2, 11, "N,H0,O0,H1,T0,T1,D,T1,U0,T0,V,D"),           # donor -> target through the handle overload, sequential
+    (1, 12, "N,H0,O0,H1,O1,H0,T0,D,N,H1,N,H1,T1,U0"),     # strict <-> auto, overflow of the auto pool
+    (2, 21, "O0,H1,T1,V,H0,O0,U1,T1,D,T1"),
+    (2, 11, "N,H0,O0,H1|O1,D"),                           # pop blocked on pool 1 resumes when a pool-0 handle is pushed into 1
+    (1, 11, "N,H0|O0,H1,O1,D"),
+    (2, 111, "N,H0,N,H0|O0,H1,O1,H2|O2,D,O0,H2"),
+    (2, 12, "N,H1,O1,H0,O0,U1|T0,D,T1,H0"),
 ]
 
 
@@ -289,6 +378,14 @@ def main(argv):
                     have += 1
         for i in range(4 if not thorough else 20):
             progs.append(("p%d" % len(progs), "H", rng.choice([1, 2, 4]), 0, gen_cached(rng, False)[1], False))
+        for cap, modes, prog in FIXED_M:
+            progs.append(("p%d" % len(progs), "M", cap, modes, prog, "|" not in prog))
+        for i in range(16 if not thorough else 100):
+            cap, modes, prog = gen_multi_seq(rng)
+            progs.append(("p%d" % len(progs), "M", cap, modes, prog, True))
+        for i in range(12 if not thorough else 80):
+            cap, modes, prog = gen_multi_conc(rng)
+            progs.append(("p%d" % len(progs), "M", cap, modes, prog, False))
         nsched = 14 if not thorough else 60
         scheds = [(rng.below(1 << 31), [0, 3, 3, 0][i % 4]) for i in range(nsched)]
     lines, meta = [], {}
@@ -340,8 +437,10 @@ def main(argv):
         # canary first: the fixed boundary programs under 3 schedules + the regression cases.  If calls already hang or
         # crash there (each hang costs a full step budget of the scheduler) only a sample of the bulk is run.
         nfixed = len(FIXED)
-        canary = [l for l in lines if int(l.split()[0][1:].split(".")[0]) < nfixed and int(l.split()[0].split(".")[1]) < 3] \
-            if not chk.replay else []
+        fm = set(FIXED_M)
+        canary = [l for l in lines if int(l.split()[0].split(".")[1]) < 3 and
+                  (int(l.split()[0][1:].split(".")[0]) < nfixed or
+                   (meta[l.split()[0]][1] == "M" and tuple(meta[l.split()[0]][2:5]) in fm))] if not chk.replay else []
         cset = set(canary)
         rest = [l for l in lines if l not in cset]
         if canary:
@@ -355,11 +454,13 @@ def main(argv):
         impl_out.update(chk.run_cases(impl, rest + blines, timeout=900))
 
     # model: outcome sets for the small programs, exact lines for the batch sequences
-    model_sets, model_b = {}, {}
+    model_sets, model_b, model_m = {}, {}, {}
     states = trans = 0
     if model:
         mlines = []
         for pid, kind, p1, p2, prog, small in progs:
+            if small and kind == "M":
+                mlines.append("%s M %d %d %s" % (pid, p2, p1, prog))
             if small and kind in "CPS":
                 if kind == "C":
                     qcap, pcap = bit_ceil(p1), 0
@@ -370,6 +471,9 @@ def main(argv):
         for pid, l in mo.items():
             if pid in bmeta:
                 model_b[pid] = l
+                continue
+            if "outcomes=" not in l:
+                model_m[pid] = l.split(" ", 1)[1]
                 continue
             f = dict(x.split("=", 1) for x in l.split()[1:7])
             states += int(f.get("states", 0))
@@ -395,7 +499,7 @@ def main(argv):
             pid, kind, p1, p2, prog, small, seed, strat = meta[cid]
             rep = {"kind": kind, "p1": p1, "p2": p2, "program": prog, "seed": seed, "strategy": strat, "small": small,
                    "impl_line": l}
-            mons = {"C": MON_C, "H": MON_H, "P": MON_P, "S": MON_P}[kind]
+            mons = {"C": MON_C, "H": MON_H, "P": MON_P, "S": MON_P, "M": MON_M}[kind]
         if l.startswith("DSCHED-STUCK"):
             k = "deadlock" if "deadlock" in l.split()[1] else "livelock"
             if cid in meta and meta[cid][1] == "S" and small and pid in model_sets and model_sets[pid][2] > 0:
@@ -429,6 +533,11 @@ def main(argv):
                     f = dict(x.split("=") for x in mtxt.split(" err=")[1].split()[1:])
                     if f.get("dtor_rest") != "0":
                         chk.violate("model-batch-dtor", "batch model destructor keeps prefetched pages: " + ml[:300], rep)
+        elif small and pid in model_m:
+            validated += 1
+            if parts[1] != model_m[pid]:
+                chk.broke("correspondence", "PAModel(pools/handles) differs on M %s %s" % (meta[cid][3], meta[cid][4]),
+                          "impl : %s\nmodel: %s" % (parts[1], model_m[pid]))
         elif small and pid in model_sets:
             outs, trunc, _ = model_sets[pid]
             validated += 1
